@@ -1,3 +1,3 @@
-from ._append import AppendOutput
+from ._append import AppendOutput, UnsupportedOutputOrderError
 from ._base import Output
 from ._bucket import BucketOutput
